@@ -16,10 +16,11 @@ from lmmm import *
 OCAML = lmmm.OCAML
 HARNESS = lmmm.HARNESS
 
-# edits that remove one site and add another at a different position in ONE swap (response to seeded change C07b).  On the tree before
-# the repair of the sibling matching (exact pairs must outweigh any chain of partial matches) an untouched site loses its state
-# under such edits; switched on together with that repair.
-MIXED_EDITS = False
+# edits that remove one site and add another at a different position in ONE swap (response to seeded change C07b).  When the added
+# site shares a cell with an old site other than the removed one's position counterpart the layout pair is AMBIGUOUS and an untouched site can
+# continue from a neighbour's state: finding F29 (class predicate checks/C08.py mixed_edit_ambiguous, the hypothesis of the theorem
+# C08_survivors_mixed_unambiguous / C07_untouched_voices_continue_mixed); on unambiguous pairs every untouched voice must continue.
+MIXED_EDITS = True
 
 # ---- voices: functions with pairwise distinct state shapes ----
 def template(k):
@@ -111,6 +112,10 @@ def run(ck):
     stats = {}
     def bump(k, n=1): stats[k] = stats.get(k, 0) + n
 
+    import importlib.util as _ilu
+    _sp = _ilu.spec_from_file_location("check_C08_pred", os.path.join(VERIF, "checks", "C08.py"))
+    _c08 = _ilu.module_from_spec(_sp); _sp.loader.exec_module(_c08)
+    ambiguous_at = {}        # history -> {time of a delete+insert edit: layout pair ambiguous?}
     histories = []
     for h in range(n_hist):
         r = ck.rng.fork(("hist", h))
@@ -144,7 +149,11 @@ def run(ck):
                 js = [j for j in range(len(cur) + 1) if j != i]
                 nv = Voice(next(fresh), r.range(1, 5), t)
                 nv.replaced = gone.k          # the new site may inherit same-shaped cells of the removed one (class F24)
+                oldv = list(versions[-1][1])
                 cur.insert(r.choice(js), nv)
+                pairs = [(oldv.index(v), cur.index(v)) for v in cur if v in oldv]
+                amb = _c08.mixed_edit_ambiguous([_c08.flat_site(*template(v.k)) for v in oldv], [_c08.flat_site(*template(v.k)) for v in cur], pairs)
+                ambiguous_at.setdefault(h, {})[t] = amb
             elif kind == "replace":
                 pos = r.below(len(cur))
                 nv = Voice(next(fresh), r.range(1, 5), t)
@@ -218,6 +227,7 @@ def run(ck):
                 viol.append((be + ": the initial program does not compile", hi, {"answer": str(b)[:300]})); continue
             bad = None
             known_hit = None
+            f29_hit = None
             f25 = False
             # swaps: compile failures must be reported as failed swaps, others must succeed
             for (t, vs, broken), sw in zip(versions[1:], b.get('swaps', [])):
@@ -251,13 +261,20 @@ def run(ck):
                         if ss[k]['out'][0] != s['out'][j]:
                             if hasattr(v, "replaced") and shares_cell(v.k, v.replaced):
                                 known_hit = (j, v); break
+                            amb_times = [tt for tt, a in ambiguous_at.get(hi, {}).items() if a and tt <= t]
+                            if amb_times and "F29" in findings:
+                                f29_hit = (j, v, amb_times[-1]); break
                             bad = ("channel %d (voice f%d(%s), created at sample %d) at sample %d is %s but the voice alone gives %s; edits: %s"
                                    % (j, 100 + v.k, v.c, v.born, t, bits_to_float(s['out'][j]), bits_to_float(ss[k]['out'][0]), events)); break
-                    if bad or known_hit:
+                    if bad or known_hit or f29_hit:
                         break
             if f25 and not bad and not known_hit:
                 bump("wasm_channel_count_changed_F25")
                 ck.known(findings["F25"], "history %d: %s" % (hi, events))
+                continue
+            if f29_hit and not bad:
+                bump(be + "_mixed_edit_ambiguous_F29")
+                ck.known(findings["F29"], "history %d: voice f%d after the delete+insert edit at sample %d" % (hi, 100 + f29_hit[1].k, f29_hit[2]))
                 continue
             if known_hit and not bad and "F24" in findings:
                 bump(be + "_replace_inherits_state_F24")
